@@ -819,6 +819,15 @@ func runStress(c *ev.Ctx, id string, sc stressCfg, seed int64) {
 				x := r.Intn(100)
 				var resp *s3c.Resp
 				switch {
+				case x < 5:
+					// a write the gateway refuses after it received the body (a legal hold the bucket cannot give):
+					// it is a put that is never acknowledged, so no read may ever return it
+					w := ws.mk(r.Intn(3) == 0)
+					op.In = opIn{Kind: "put", W: w.id, Name: "PUT-to-be-refused"}
+					op.Call = clk.now()
+					resp = cl.PutObject("stress", key, w.body, append(w.hdr(), "X-Amz-Object-Lock-Legal-Hold", "ON")...)
+					op.Ret = clk.now()
+					op.Out = opOut{Ack: resp.OK(), Unk: resp.Err != nil}
 				case x < 35:
 					w := ws.mk(r.Intn(3) == 0)
 					op.In = opIn{Kind: "put", W: w.id, Name: "PUT"}
